@@ -568,6 +568,12 @@ def run(ctx):
     ]
     for m in must:
         if not classes.get(m):
+            if ":rejected:" in m or ":raises:" in m:
+                # dulwich no longer rejects what it used to reject: that is a matter for the oracle (the accepted
+                # inputs are judged), not a defect of the harness — unless nothing at all was found
+                if ctx.acc.viol:
+                    ctx.coverage.setdefault("expected_rejections_missing", []).append(m)
+                    continue
             raise HarnessError("vacuous run: outcome class %r never occurred" % m)
     if not any(c.startswith("fault:") and c.endswith(":completed") for c in classes) or \
        not any(c.startswith("fault:") and ":rejected:" in c for c in classes):
